@@ -93,7 +93,7 @@ pub struct Subject {
     pub twin: Option<&'static str>,
 }
 
-fn encode_op<T: Modelled + Encode>(v: &V, sink: &SinkSpec) -> EncOut {
+fn encode_op<T: Modelled + Encode + Decode>(v: &V, sink: &SinkSpec) -> EncOut {
     let t = T::from_model(v);
     match sink.kind {
         SinkKind::Owned => EncOut { bytes: t.encode(), trace: Trace::new() },
@@ -138,6 +138,19 @@ fn encode_op<T: Modelled + Encode>(v: &V, sink: &SinkSpec) -> EncOut {
             EncOut { bytes: w.into_inner().expect("bufwriter flush"), trace: Trace::new() }
         },
         SinkKind::UsingEncoded => EncOut { bytes: t.using_encoded(|b| b.to_vec()), trace: Trace::new() },
+        SinkKind::KeyedVec => {
+            use parity_scale_codec::KeyedVec;
+            let key = [0xAB, 0xCD, 0xEF];
+            let out = t.to_keyed_vec(&key);
+            assert_eq!(&out[..3.min(out.len())], &key[..3.min(out.len())], "to_keyed_vec does not start with the key");
+            EncOut { bytes: out[3.min(out.len())..].to_vec(), trace: Trace::new() }
+        },
+        SinkKind::Joiner => {
+            use parity_scale_codec::Joiner;
+            let out: Vec<u8> = vec![0x11u8, 0x22].and(&t);
+            assert_eq!(&out[..2], &[0x11, 0x22], "Joiner::and disturbed the existing bytes");
+            EncOut { bytes: out[2..].to_vec(), trace: Trace::new() }
+        },
     }
 }
 
@@ -445,6 +458,7 @@ pub fn build_catalogue() -> Vec<Subject> {
         // tuples led by a collection (DecodeLength delegates to the first member)
         (Vec<u32>, u8) [mem, len]; (BTreeMap<u8, u8>,) [mem, len]; (VecDeque<u16>, String, u8) [mem, len]; (LinkedList<u16>, u8) [mem, len]; (BTreeSet<u16>, Vec<u8>) [mem, len]; (BinaryHeap<u32>, bool) [mem, len]; (Vec<()>, u32) [mem, len];
         // more shapes
+        Compact<Pct> [mem]; Vec<Compact<Pct>> [mem, len]; (u8, Compact<Pct>) [mem]; TupSkip [mem]; TupSkip2 [mem]; Vec<TupSkip> [mem, len]; [TupSkip2; 2] [mem]; Cached [mem]; [Cached; 3] [mem]; Box<[Cached; 2]> [mem]; Vec<Cached> [mem, len]; EnumMixed [mem]; Vec<EnumMixed> [mem, len]; [EnumMixed; 4] [mem];
         Box<Unit1> [mem]; Rc<Unit9> [mem]; Arc<(Unit1, Unit9)> [mem]; Vec<Box<Unit1>> [mem, len]; (Box<Unit9>, u16) [mem]; Option<Box<Unit1>> [mem]; BTreeMap<u8, Box<Unit9>> [mem, len]; Box<[Unit1; 3]> [mem];
         (BTreeMap<u8, u8>, BTreeMap<u8, u8>) [mem, len]; Vec<BTreeMap<u8, u8>> [mem, len]; (BTreeSet<u16>, Vec<String>) [mem, len]; [BTreeMap<u8, u8>; 3] [mem]; (LinkedList<u16>, LinkedList<u16>) [mem, len]; Vec<BTreeSet<u8>> [mem, len]; Vec<LinkedList<u8>> [mem, len]; (Vec<String>, Vec<String>, Box<u8>) [mem, len];
         Vec<[u16; 0]> [mem, len]; Vec<[bool; 0]> [mem, len]; VecDeque<[[u32; 4]; 0]> [mem, len]; BTreeSet<[u8; 0]> [mem, len]; LinkedList<[u64; 0]> [mem, len, empty_alloc]; Option<[u16; 0]> [mem]; Vec<(u8, [u16; 0])> [mem, len];
